@@ -2,6 +2,7 @@
 # Build the pinned test suite from /repo's working tree in a scratch dir (guard OFF) and run it.
 set -e
 B=${SUITE_BUILD_DIR:-/tmp/qentem_suite_build}
-cmake -G Ninja -B "$B" -S /repo >/dev/null 2>&1
+S=${SUITE_SRC:-/repo}
+cmake -G Ninja -B "$B" -S "$S" >/dev/null 2>&1
 cmake --build "$B" -j16 2>&1 | grep -E "error|warning: unused|FAILED" | head -20 || true
 ctest --test-dir "$B" -j8 2>&1 | tail -4
